@@ -41,7 +41,7 @@ type symbol struct {
 }
 
 var alphabet = []symbol{
-	{"start", "valid"}, {"start", "key0"}, {"start", "key31"}, {"start", "key33"}, {"start", "zero32"}, {"start", "low-order"}, {"start", "ff32"},
+	{"start", "valid"}, {"start", "key0"}, {"start", "key31"}, {"start", "key33"}, {"start", "zero32"}, {"start", "low-order"}, {"start", "ff32"}, {"start", "high-bit"},
 	{"finish", "genuine"}, {"finish", "wrong-key-signature"}, {"finish", "stale-material"}, {"finish", "reordered-material"},
 	{"finish", "replay-earlier-exchange"}, {"finish", "replay-stale-genuine"}, {"finish", "replay-other-connection"}, {"finish", "unknown-name"}, {"finish", "accessory-name-garbage-sig"},
 	{"finish", "accessory-name-self-signed"}, {"finish", "removed-controller"}, {"finish", "sealed-wrong-key"}, {"finish", "sealed-zero-key"},
@@ -49,7 +49,7 @@ var alphabet = []symbol{
 	{"finish", "degenerate-key+neutral-signature"}, {"finish", "degenerate-key+low-order-signature"}, {"finish", "degenerate-key+self-signed"},
 	// an UNKNOWN name that a storage layer might confuse with a stored one (padding, case, truncation of long names, equal
 	// CRC-32), signed with the stored controller's real key over this exchange and the claimed name
-	{"finish", "alias-of-stored-name"},
+	{"finish", "alias-of-stored-name"}, {"finish", "signed-over-equivalent-key"},
 }
 
 // aliasOf derives a name that is not stored from a stored one.
@@ -179,6 +179,11 @@ func buildStart(w *world, variant string) (msg []byte, priv, pub [32]byte) {
 	switch variant {
 	case "valid":
 		return refctl.VerifyM1(pub[:]), priv, pub
+	case "high-bit":
+		// the same curve point spelled with bit 255 set (X25519 ignores that bit: the peer derives the same secret); the
+		// key "as sent" that the finish has to be signed over is this byte string, not the masked one
+		pub[31] |= 0x80
+		return refctl.VerifyM1(pub[:]), priv, pub
 	case "key0":
 		return refctl.VerifyM1(nil), priv, pub
 	case "key31":
@@ -230,6 +235,15 @@ func buildFinish(w *world, p *peer, variant string) (msg []byte, genuine bool) {
 		}
 		m := refctl.VerifyM3(ex.encKey, refctl.VerifyM3Plain(me.ID, me.LTSK, ex.pub[:], ex.accPub))
 		return m, p.cur.open
+	case "signed-over-equivalent-key":
+		// signed by the stored key, but over another spelling of the controller's curve key (bit 255 flipped: the same
+		// point for X25519, a different byte string): not what was sent in the start request
+		other := ex.pub
+		other[31] ^= 0x80
+		if me == nil {
+			me = stranger
+		}
+		return refctl.VerifyM3(ex.encKey, refctl.VerifyM3Plain(me.ID, me.LTSK, other[:], ex.accPub)), false
 	case "wrong-key-signature":
 		id := "nobody"
 		if me != nil {
